@@ -239,3 +239,18 @@ package enc
 //@   property C08
 //@   pure
 //@   ensures result == 'Y'
+
+// ---- order tags of answer records
+//@ func IntToBase32Char
+//@   property C10, C12
+//@   safe
+//@   pure
+//@ func ByteToBase32Char
+//@   property C10, C12
+//@   safe
+//@   pure
+//@ func Base32CharToInt
+//@   property C10, C12
+//@   safe
+//@   pure
+//@   ensures -1 <= result && result < 32
